@@ -284,7 +284,7 @@ def run_crashenum(work, binpath, tier, seed, env, unit, replay):
                 samples.append(dict(s, scenario=sc["desc"]))
         if "violation" in r:
             res["verdict"] = "violation"
-            res["detail"] = "crash-point"
+            res["detail"] = "fault-point" if unit.get("mode") == "fault" else "crash-point"
             case = {"family": unit["family"], "scenario": sc["desc"], "op": sc["op"], "arg": sc["arg"], "finding": r["violation"], "point": r.get("point")}
             json.dump(case, open(os.path.join(work, "verif-case-crash.json"), "w"), indent=1)
             res["cwd"] = work
